@@ -74,6 +74,10 @@ impl RngCore for Scripted {
     }
     fn next_u64(&mut self) -> u64 {
         self.draws += 1;
+        if self.draws > DRAW_HORIZON {
+            // explicit horizon, counted in draws (never in wall time): unwinds out of the sampler
+            std::panic::panic_any(HorizonReached);
+        }
         if self.pos < self.script.len() {
             let v = self.script[self.pos];
             self.pos += 1;
@@ -103,11 +107,36 @@ impl RngCore for Scripted {
     }
 }
 
+/// explicit horizon of every RNG environment, in draws
+pub const DRAW_HORIZON: usize = 1 << 20;
+pub struct HorizonReached;
+
 /// a script [COUNTER_TAG, start] selects the plain-counter environment starting at `start`
 pub const COUNTER_TAG: u64 = 0xC0_47E2_C0_47E2_C0_47;
 pub const SAMPLERS: [&str; 4] = ["Standard.sample::<Element>", "Element::rand (UniformRand)", "Standard.sample::<AffinePoint>", "AffinePoint::rand (UniformRand)"];
 
 pub fn eval_sampler(dc: &Decaf, which: usize, script: &[u64]) -> Outcome {
+    let counter_env = script.len() == 2 && script[0] == COUNTER_TAG;
+    match std::panic::catch_unwind(std::panic::AssertUnwindSafe(|| eval_sampler_inner(dc, which, script))) {
+        Ok(o) => o,
+        Err(payload) => {
+            if payload.downcast_ref::<HorizonReached>().is_some() {
+                if counter_env {
+                    // a monotone counter can keep a fixed bit pattern for 2^32 draws; slow or no
+                    // termination under such a degenerate generator is outside C06 (which
+                    // constrains the values RETURNED)
+                    Outcome::trivial(format!("{}/horizon reached under a counter generator (no value returned)", SAMPLERS[which]))
+                } else {
+                    Outcome::bad("sampler/horizon", Viol { key: format!("C06|sampler|{}|horizon", SAMPLERS[which]), engine: "E3/C06-rng".into(), case: json!({"sampler": SAMPLERS[which], "script": script.iter().map(|x| x.to_string()).collect::<Vec<_>>()}), expected: format!("returns a value within {DRAW_HORIZON} draws of a well-spread (splitmix64) continuation"), got: "still drawing: unbounded rejection loop".into() })
+                }
+            } else {
+                std::panic::resume_unwind(payload)
+            }
+        }
+    }
+}
+
+fn eval_sampler_inner(dc: &Decaf, which: usize, script: &[u64]) -> Outcome {
     let mut rng = if script.len() == 2 && script[0] == COUNTER_TAG { Scripted { script: vec![], pos: 0, ctr: script[1], draws: 0, plain_counter: true } } else { Scripted { script: script.to_vec(), pos: 0, ctr: 0x1234, draws: 0, plain_counter: false } };
     let (x, y): (BigUint, BigUint) = match which {
         0 | 1 => {
@@ -288,7 +317,7 @@ pub fn run(ctx: &Arc<Ctx>) {
     );
     ctx.report.set("C06_e3", json!({"from_random_bytes_strings": strings.len(), "rng_scripts": ns, "rng_alphabet": alphabet.iter().map(|x| x.to_string()).collect::<Vec<_>>(), "max_script_len": maxlen}));
     ctx.report.rule(format!("E3/C06[ark]: from_random_bytes on {} strings (every length 0..=64 x 4 fills, all LE integers below 2^{} with the flag bit clear and set, q +- d, valid decaf encodings and neighbours); 4 samplers under all {} scripted RNG prefixes of length <= {} over an 8-value limb alphabet followed by a fixed counter stream; validity = on curve and r*P in the identity coset in reference arithmetic, plus encoding round trip and r*P == identity through the real API", strings.len(), if ctx.quick() { 11 } else { 16 }, ns, maxlen));
-    ctx.report.assume("C06: sampler scripts longer than the bound continue with a fixed splitmix64 counter stream (explicit horizon); the watchdog turns a non-terminating rejection loop into a violation");
+    ctx.report.assume("C06: sampler scripts longer than the bound continue with a fixed splitmix64 counter stream (explicit horizon); every environment has an explicit horizon of 2^20 draws: reaching it under the well-spread continuation is a violation (unbounded rejection loop), under a monotone counter generator it is recorded as a class (no value returned, nothing to check)");
 }
 
 pub fn replay(case: &Value) -> (bool, Value) {
